@@ -142,11 +142,11 @@ class Ref:
         v = float(v)
         poss = [self.pos(i, float(theta[i])) for i in idxs]
         if v != v:
-            fails.append(fail(f"{key}/value-nan", f"nan at theta={list(theta)}", **det))
+            fails.append(fail(f"{key}/value-nan", f"nan at theta={np.asarray(theta).tolist()}", **det))
             return "bad"
         if "out" in poss:
             if not v <= OUT:
-                fails.append(fail(f"{key}/positive-density-outside-support", f"value {v!r} at theta={list(theta)} with variable(s) {[i for i, p in zip(idxs, poss) if p == 'out']} outside the support", observed=v, expected="<= -1e99", **det))
+                fails.append(fail(f"{key}/positive-density-outside-support", f"value {v!r} at theta={np.asarray(theta).tolist()} with variable(s) {[i for i, p in zip(idxs, poss) if p == 'out']} outside the support", observed=v, expected="<= -1e99", **det))
             return "out"
         ref = sum((self.lp(i, float(theta[i]))[0] for i in idxs), mp.mpf(0))
         sc = sum((self.lp(i, float(theta[i]))[1] for i in idxs), mp.mpf(0))
@@ -157,7 +157,7 @@ class Ref:
         s = float(err) / tol if err != mp.inf else float("inf")
         slack[f"{key.split('/')[0]}/value"] = max(slack.get(f"{key.split('/')[0]}/value", 0.0), s)
         if not err <= tol:
-            fails.append(fail(f"{key}/log-density", f"value {v!r} vs sum of per-variable reference log-densities {mp.nstr(ref, 20)} at theta={list(theta)} (tol {tol:.3g})", observed=v, expected=mp.nstr(ref, 25), **det))
+            fails.append(fail(f"{key}/log-density", f"value {v!r} vs sum of per-variable reference log-densities {mp.nstr(ref, 20)} at theta={np.asarray(theta).tolist()} (tol {tol:.3g})", observed=v, expected=mp.nstr(ref, 25), **det))
         return "edge" if "edge" in poss else "in"
 
     def check_gradient_entries(self, g, theta, pairs, key, fails, slack, det):
@@ -173,7 +173,7 @@ class Ref:
             s = (0.0 if err == 0 else float("inf")) if tol == 0.0 else (float(err) / tol if err != mp.inf else float("inf"))
             slack[f"{key.split('/')[0]}/gradient"] = max(slack.get(f"{key.split('/')[0]}/gradient", 0.0), s)
             if not ok:
-                fails.append(fail(f"{key}/gradient-entry", f"gradient[{pos}] = {gi!r} but d log f_{i}/d theta_{i} = {mp.nstr(ref, 20)} (law {t}{h}) at theta={list(theta)}; gradient={np.asarray(g).tolist()}", observed=np.asarray(g).tolist(), expected_entry=mp.nstr(ref, 25), **det))
+                fails.append(fail(f"{key}/gradient-entry", f"gradient[{pos}] = {gi!r} but d log f_{i}/d theta_{i} = {mp.nstr(ref, 20)} (law {t}{h}) at theta={np.asarray(theta).tolist()}; gradient={np.asarray(g).tolist()}", observed=np.asarray(g).tolist(), expected_entry=mp.nstr(ref, 25), **det))
                 return False
         return True
 
